@@ -3,6 +3,7 @@ import Nstd.Rc.Total
 import Nstd.Rc.Stale
 import Nstd.Rc.Frame
 import Nstd.Rc.PtrTotal
+import Nstd.Rc.NestedLemmas
 /-
   Property C09: shared payloads are released exactly once, after their last handle.
 
@@ -15,20 +16,27 @@ import Nstd.Rc.PtrTotal
 namespace Nstd.Rc
 
 /-
-  Handles nested inside payloads (the `next` pointer of a counted object, the String inside a box):
-  the handle embedded in block c is the slot `embSlot c`.  `Reach` contains, besides the steps of a
-  thread on its own slots, the steps `incE` (a thread holding c copies the embedded handle: shared
-  payloads are read by every holder), `takeE`/`putE` (only the thread holding the ONLY handle of c
-  replaces the embedded handle) and `takeF` (the thread whose decrement of c reached zero takes the
-  embedded handle out before it deletes c: the destructor).  All theorems below therefore hold for
-  programs with nested handles; `mt_safe_nested`, `mt_embedded_write_sole`, `mt_embedded_take_on_release`
-  and `mt_embedded_stable` state the nested part explicitly.
+  Handles nested inside payloads (the `next` pointer of a counted object, the Variants of a list payload, the children
+  of an Xml element): payload block c carries a FAMILY of embedded handle slots `embSlotK c k`, k = 0, 1, 2, …
+  (`embSlot c` = slot 0).  `Reach` contains, besides the steps of a thread on its own slots, the steps `incE` (a thread
+  holding c copies embedded handle k: shared payloads are read by every holder), `takeE`/`putE` (only the thread
+  holding the ONLY handle of c replaces an embedded handle), `takeF` / `adoptF` (the thread whose decrement of c
+  reached zero takes the embedded handles out / becomes their owner before it deletes c: the destructor, which then
+  releases each of them).  `handles s b` counts ALL slots, top-level and embedded, so `mt_safe` (counter = number of
+  handles, released once, never while referenced, writes only through the sole handle) holds for programs with any
+  number of nested handles per payload; `mt_safe_nested`, `mt_embedded_write_sole`, `mt_embedded_take_on_release`,
+  `mt_embedded_stable`, `mt_embedded_owner_stable` state the nested part explicitly for every slot of the family.
+  The API calls that create, copy, read and release such payloads (`NOp`, Nested.lean: list payloads holding shared
+  Variants, Xml elements with children, executed with the destructor cascade `runC`) are covered by the `nested_*`
+  theorems below.
 
-  OPEN (what is still not covered): payloads with MORE than one embedded handle (the Variants of a list / map
-  payload, the children of an Xml element) and in-place writes THROUGH an embedded handle (`v.toString().append`
-  on a box whose inner String block is itself shared); in `apiStep` the String inside a Variant / Xml::Variant
-  box is still flat content, only RefCount objects carry a modelled embedded handle, so the cross-kind calls
-  `Variant = String variable` / `String = variant.toString()` are not in the correspondence.
+  OPEN (what is still not covered): in-place writes THROUGH an embedded handle (`v.toString().append` on a box whose
+  inner String block is itself shared); the String inside a Variant / Xml::Variant box is still flat content, so the
+  cross-kind calls `Variant = String variable` / `String = variant.toString()` are not in the correspondence; boxed
+  elements of array / map payloads and Xml attributes (same container code, not driven); totality of the nested calls
+  (`apiRunN … = some s` is a hypothesis: fuel of the cascade, fewer than `maxBlocks` allocations, at most `famK` boxed
+  elements per payload in the drivers' layout) and "no handle is left in a released block" (cascade completeness) are
+  validated by the correspondence run (ledger: `live`, `end live=0`) and the examples only.
 -/
 
 /-- multi-threaded safety: in every reachable state, for every schedule and all programs -/
@@ -293,6 +301,108 @@ theorem st_write_sole {n tid : Nat} {ops : List ApiOp} {s s1 s2 : St} {acts : Li
   have r := reach_runT acts (reach_apiRun ops Reach.init h) h1
   obtain ⟨a, b', _⟩ := mt_write_sole r h2 hw
   exact ⟨a, b'⟩
+
+/-! ### single-threaded, payloads with several embedded handles: every history of `NOp` calls
+    (all calls above + `V[d].toList().append(V[s])`, `V[d] = V[s].toList()[k]`, `X[d].toElement().content.append(X[s])`,
+    `X[d] = k-th child of X[s]`), executed with the destructor cascade -/
+
+/-- the state between two calls: nothing is in flight (every cascade has run to its end) -/
+theorem nested_st_quiet {n tid : Nat} {ops : List NOp} {s : St} (h : apiRunN (init n) tid ops = some s) :
+    ∀ t, s.pc t = .idle :=
+  quiet_apiRunN ops (fun _ => rfl) h
+
+/-- the counter of every live block is the number of handles referring to it — variables, temporaries and the handles
+    embedded in ANY slot of ANY payload — and is positive (no leak of a live block) -/
+theorem nested_ref_counts_handles {n tid : Nat} {ops : List NOp} {s : St} (h : apiRunN (init n) tid ops = some s) :
+    ∀ b blk, s.heap b = some blk → blk.ref = handles s b ∧ 0 < blk.ref := by
+  have inv := inv_reach (reach_apiRunN ops Reach.init h)
+  intro b blk hb
+  refine ⟨inv.cnt b blk hb, ?_⟩
+  by_cases z : blk.ref = 0
+  · obtain ⟨t, hf⟩ := inv.zero b blk hb z
+    rw [nested_st_quiet h t] at hf; cases hf
+  · omega
+
+/-- … split into top-level and embedded handles, for the slot layout of the drivers -/
+theorem nested_ref_split {ops : List NOp} {s : St} (h : apiRunN (init nTotal) 0 ops = some s) (b : Nat) (blk : Block)
+    (hb : s.heap b = some blk) :
+    blk.ref = handlesOf embBase s.slots b
+      + (List.range' embBase (maxBlocks * famK)).countP (fun v => s.slots v == Handle.blk b) := by
+  have r := reach_apiRunN ops Reach.init h
+  have := mt_safe_nested r embBase (by decide) b blk hb
+  simpa [nTotal] using this
+
+/-- every block ever allocated is either live, never released and referred to by at least one handle, or released
+    exactly once and referred to by no handle (top-level or embedded): an inner payload is released exactly when its
+    last handle went — with the last outer handle if that held the last reference — never twice, never while referenced -/
+theorem nested_freed_once_after_last {n tid : Nat} {ops : List NOp} {s : St} (h : apiRunN (init n) tid ops = some s) :
+    ∀ b, b < s.next →
+      (s.freed b = 0 ∧ s.heap b ≠ none ∧ 1 ≤ handles s b) ∨ (s.freed b = 1 ∧ s.heap b = none ∧ handles s b = 0) := by
+  have inv := inv_reach (reach_apiRunN ops Reach.init h)
+  intro b hb
+  have hf := inv.freedOnce b hb
+  cases hh : s.heap b with
+  | none =>
+    right
+    simp only [hh, if_true] at hf
+    refine ⟨hf, rfl, ?_⟩
+    apply handles_zero
+    intro v hv e
+    obtain ⟨blk, hblk⟩ := inv.live v b hv e
+    rw [hh] at hblk; cases hblk
+  | some blk =>
+    left
+    simp only [hh, reduceCtorEq, if_false] at hf
+    obtain ⟨h1, h2⟩ := nested_ref_counts_handles h b blk hh
+    exact ⟨hf, by simp, by omega⟩
+
+/-- no in-place write hit a block that another handle (top-level or embedded) referred to, no released block was
+    accessed, nothing was released twice -/
+theorem nested_no_inplace_write_while_shared {n tid : Nat} {ops : List NOp} {s : St}
+    (h : apiRunN (init n) tid ops = some s) : s.viol = 0 :=
+  (inv_reach (reach_apiRunN ops Reach.init h)).noviol
+
+/-- an embedded handle is stored into / removed from a container payload only while the caller holds its only handle:
+    the states inside the calls are reachable, so `mt_embedded_write_sole` applies to every `takeE` / `putE` they perform -/
+theorem nested_states_reachable {n tid : Nat} {ops : List NOp} {s s1 : St} {acts : List Act} {fuel : Nat}
+    (h : apiRunN (init n) tid ops = some s) (h1 : runC fuel s tid acts = some s1) : Reach n s1 :=
+  reach_runC _ _ (reach_apiRunN ops Reach.init h) h1
+
+/-- non-vacuity (Variant variables are slots 4..7): V0 = "a" (box 0); V1 = [V0] (list box 1 holding a handle to box 0);
+    V2 = V1 shares the list box; mutable access to V2 clones the list box (box 2) and INCREMENTS the inner payload:
+    box 0 now has three handles (V0 and one embedded in each list box), box 1 one -/
+example : ∃ s, apiRunN (init nTotal) 0
+    [.flat (.vSetStr 4 [97]), .vPushV 5 4, .flat (.vCopy 6 5), .flat (.vPush 6 7)] = some s
+    ∧ (s.heap 0).map (·.ref) = some 3 ∧ (s.heap 1).map (·.ref) = some 1 ∧ (s.heap 2).map (·.ref) = some 1
+    ∧ s.slots (embSlotK 1 0) = .blk 0 ∧ s.slots (embSlotK 2 0) = .blk 0 ∧ (s.heap 2).map (·.val) = some [0, 7]
+    ∧ s.viol = 0 := by
+  refine ⟨_, rfl, ?_⟩
+  decide
+
+/-- … and releasing the handles one by one: the inner payload survives the first list box and is released exactly once,
+    by the cascade of the release of the last list box -/
+example : ∃ s, apiRunN (init nTotal) 0
+    [.flat (.vSetStr 4 [97]), .vPushV 5 4, .flat (.vCopy 6 5), .flat (.vPush 6 7), .flat (.vClear 4), .flat (.vClear 5),
+     .flat (.vClear 6)] = some s
+    ∧ s.freed 0 = 1 ∧ s.freed 1 = 1 ∧ s.freed 2 = 1 ∧ s.next = 3 ∧ s.viol = 0 := by
+  refine ⟨_, rfl, ?_⟩
+  decide
+
+/-- the assigned value lives in the payload that the assignment releases: `V1 = V1.toList()[0]` (increment first) -/
+example : ∃ s, apiRunN (init nTotal) 0 [.flat (.vSetStr 4 [97]), .vPushV 5 4, .flat (.vClear 4), .vGetV 5 5 0] = some s
+    ∧ s.slots 5 = .blk 0 ∧ (s.heap 0).map (·.ref) = some 1 ∧ s.freed 1 = 1 ∧ s.freed 0 = 0 ∧ s.viol = 0 := by
+  refine ⟨_, rfl, ?_⟩
+  decide
+
+set_option maxRecDepth 8000 in
+/-- Xml (slots 8..11): an element with two children that share one text payload; a copy of the element is cloned by
+    mutable access (each child incremented); everything is released exactly once at the end -/
+example : ∃ s, apiRunN (init nTotal) 0
+    [.flat (.xSetStr 8 [97]), .xAddC 9 8, .xAddC 9 8, .flat (.xCopy 10 9), .flat (.xElem 10 [98]), .flat (.xClear 8),
+     .flat (.xClear 9), .xGetC 11 10 1, .flat (.xClear 10), .flat (.xClear 11)] = some s
+    ∧ s.freed 0 = 1 ∧ s.freed 1 = 1 ∧ s.freed 2 = 1 ∧ s.next = 3 ∧ s.viol = 0 := by
+  refine ⟨_, rfl, ?_⟩
+  decide
 
 /-! ### well-formed calls are never rejected (so the theorems above are not vacuous for any such history) -/
 
